@@ -101,6 +101,16 @@ def hasMessage (g : Graph) (round : Nat) (kind : Kind) : Bool :=
 def Graph.messageBound (g : Graph) (round : Nat) (kind : Kind) : Bool :=
   g.leaves.any fun l => l.round == round && l.kind == kind && g.bound l
 
+/-- `a.b{}` / `a.b[]` ↦ `a.b` (the container a length / field operator acts on) -/
+def containerStem (p : String) : String :=
+  if p.endsWith "{}" || p.endsWith "[]" then (p.dropEnd 2).toString else p
+
+/-- containers above the declared leaves (the message map itself, `{}`/`[]` of a prefix of a leaf) -/
+def Graph.classifyContainer (g : Graph) (round : Nat) (kind : Kind) (path : String) : SiteClass :=
+  if containerStem (normPath path) == "" ||
+      g.leaves.any (fun l => l.round == round && l.kind == kind && pathMatches (containerStem (normPath path)) l.path)
+  then .structural else .unknown
+
 def Graph.classify (g : Graph) (round : Nat) (kind : Kind) (path : String) : SiteClass :=
   if !hasMessage g round kind then .unknown else
   -- a message nobody reads (a newcomer's placeholder): everything in it is the sender's free choice
@@ -108,12 +118,7 @@ def Graph.classify (g : Graph) (round : Nat) (kind : Kind) (path : String) : Sit
   if path == "msg" then .structural else
   match g.leafOf round kind (normPath path) with
   | some l => if g.bound l then .boundLeaf l (g.predsOn l) else .unboundLeaf l
-  | none =>
-    -- containers above the declared leaves (the message map itself, `{}`/`[]` of a prefix)
-    let p := normPath path
-    let stem := if p.endsWith "{}" || p.endsWith "[]" then (p.dropEnd 2).toString else p
-    if stem == "" || g.leaves.any (fun l => l.round == round && l.kind == kind && pathMatches stem l.path)
-    then .structural else .unknown
+  | none => g.classifyContainer round kind path
 
 /-! ## the receiver loop and the output gate (what every round function does) -/
 
